@@ -65,22 +65,24 @@ Print Assumptions C08_validated_run_partial.
    the statement normally from a related state), the stack-pointer word mem[1] holds what it held, no protected
    word (code, constant pool) has changed, and every other change lies in the procedure's temporaries, its
    outgoing area [sp, sp+og), or the word of a variable in scope (a global's DATA word, a local or formal frame
-   word).  `stmt_ok f` is C01_stmt_fragment_partial's conclusion (proved for every f).
+   word).  `stmt_ok .. f` is the conclusion of C01_stmt_fragment_partial (no calls: pinfo empty, Fr empty; proved for
+   every f) and of C01_stmt_calls_partial (procedure-call statements, relative to the callees' specification; then
+   the free stack Fr below the frame counts as scratch: that is where callees put their frames).
    Missing for C08_full: the clauses for every intermediate access (this is the net effect between statement
    boundaries; the per-access clauses are decided per program by the monitor, C08_monitor_sound), procedure calls
    (prologue/epilogue balance across a call), and the entry/exit stub. *)
 Theorem C08_frame_discipline_partial :
-  forall venv pool size nslots off0 og exitl ge P m0 lab sp f,
-    stmt_ok venv pool size nslots off0 og exitl ge P m0 lab sp f ->
-    forall s n code n' st st', cs venv pool size nslots off0 og exitl s n = Some (code, n') ->
+  forall pinfo Fr Dq venv pool size nslots off0 og exitl ge P m0 lab sp f,
+    stmt_ok pinfo Fr Dq venv pool size nslots off0 og exitl ge P m0 lab sp f ->
+    forall s n code n' st st', cs pinfo venv pool size nslots off0 og exitl s n = Some (code, n') ->
     exec f ge s st = Ret Normal st' ->
-    forall m pos nxt a b inp, Rel venv ge P m0 sp st m -> code_at (C P m0) lab pos code nxt ->
+    forall m pos nxt a b inp, Rel Dq venv ge P m0 sp st m -> code_at (C P m0) lab pos code nxt ->
     0 <= pos -> nxt < W -> 0 <= lab exitl < W ->
     exists evs a' b' m',
       runs inp (mk pos a b 0 m) evs inp (mk nxt a' b' 0 m') /\
       rd m' 1 = rd m 1 /\
       (forall x, 0 <= x -> P x -> rd m' x = rd m x) /\
-      (forall x, 0 <= x -> ~ scratch size nslots off0 og sp x -> ~ var_word venv sp x -> rd m' x = rd m x).
+      (forall x, 0 <= x -> ~ scratch Fr size nslots off0 og sp x -> ~ var_word venv sp x -> rd m' x = rd m x).
 Proof. exact frame_discipline. Qed.
 Print Assumptions C08_frame_discipline_partial.
 
